@@ -70,6 +70,24 @@ StrRefWhy(e) ==
     ELSE ""
 StrRefDrift(e) == e.table = "MODN" /\ \E j \in 1..Len(e.refs) : ~(\E q \in 1..Len(e.strs) : e.strs[q].off = e.refs[j])
 
+\* BSP structure: the MOBN records read out of the bytes (layout of the specification) are the tree that was
+\* written, and form a well-formed BSP tree
+BspNodeOf(row) == [axis |-> row[1] % 4, leaf |-> (row[1] \div 4) % 2 = 1, neg |-> row[2], pos |-> row[3], nfaces |-> row[4], fstart |-> row[5]]
+BspWant(row)   == [axis |-> row[1], leaf |-> row[2] = 1, neg |-> row[3], pos |-> row[4], nfaces |-> row[5], fstart |-> row[6]]
+BspWhy(e, st) ==
+    LET got  == [j \in 1..Len(e.nodes) |-> BspNodeOf(e.nodes[j])]
+        want == [j \in 1..Len(st.shape.bsp) |-> BspWant(st.shape.bsp[j])]
+    IN  IF Len(st.shape.bsp) = 0 THEN ""
+        ELSE IF got # want THEN "bsp_nodes_in_file_ne_tree_written"
+        ELSE IF ~BspWellFormed(got) THEN "bsp_tree_malformed" ELSE ""
+\* portal graph: the MOPR records read out of the bytes are the references written and form a valid graph
+RefOf(row) == [portal |-> row[1], group |-> row[2], side |-> row[3]]
+PortalWhy(e, st) ==
+    LET got  == [j \in 1..Len(e.refs) |-> RefOf(e.refs[j])]
+        want == [j \in 1..Len(st.shape.prefs) |-> RefOf(st.shape.prefs[j])]
+    IN  IF Len(st.shape.prefs) = 0 THEN ""
+        ELSE IF got # want THEN "portal_refs_in_file_ne_written"
+        ELSE IF ~PortalGraphOk(got, st.shape.nport, st.shape.ngrp) THEN "portal_graph_malformed" ELSE ""
 Owed(st) == IF st.kind = "rootconv" THEN ConvRootOwed(st.ver, st.to) ELSE ConvGroupOwed(st.ver, st.to)
 SecWhy(e, st) ==
     IF e.phase = "convert" THEN (IF e.name \in Owed(st) /\ e.a # e.b THEN "representable_section_changed" ELSE "")
@@ -93,13 +111,21 @@ EndWhy(st) == IF st.ph \in {"parsed", "rewritten", "converted"} /\ ~(Expected(st
 Why(e, st) ==
     CASE e.ev = "Reset"   -> ""
       [] e.ev = "Write"   -> IF IsOk(e.res) \/ IsErr(e.res) THEN "" ELSE "write_crashed"
-      [] e.ev = "Chunks"  -> IF e.len # st.wlen THEN "walker_len" ELSE ""
+      \* group files: the back-patched MOGP size must make the sub-chunks tile its payload behind the 68-byte
+      \* header (the property's "group chunk size back-patching"), and every sub-chunk holds exactly the
+      \* records of its list
+      [] e.ev = "Chunks"  -> IF e.len # st.wlen THEN "walker_len"
+                             ELSE IF st.kind = "group" /\ ~Replay(e.cs, e.len).done THEN "mogp_subchunks_do_not_tile"
+                             ELSE IF st.kind = "group" /\ ~GroupSizesOf(e.cs, lsh) THEN "group_chunk_records_ne_list"
+                             ELSE ""
       [] e.ev = "Count"   -> CountWhy(e)
       [] e.ev = "StrRef"  -> StrRefWhy(e)
       [] e.ev = "Parse"   -> IF IsOk(e.res) THEN "" ELSE "parse_rejects_writer_output"
       [] e.ev = "Sec"     -> SecWhy(e, st)
       [] e.ev = "Rewrite" -> IF ~IsOk(e.res) THEN "rewrite_failed"
                              ELSE IF e.len # st.wlen \/ e.tok # st.wtok THEN "second_write_differs" ELSE ""
+      [] e.ev = "Bsp"     -> BspWhy(e, st)
+      [] e.ev = "PortalRefs" -> PortalWhy(e, st)
       [] e.ev = "RwChunk" -> IF e.a # e.b THEN "chunk_differs_on_second_write" ELSE ""
       [] e.ev = "Convert" -> IF IsOk(e.res) THEN "" ELSE "convert_failed"
       [] e.ev = "End"     -> EndWhy(st)
@@ -132,7 +158,7 @@ StepState(e, st) ==
 PhaseOk(e, st) ==
     CASE e.ev = "Reset"   -> TRUE
       [] e.ev = "Write"   -> st.ph \in {"reset", "converted"}
-      [] e.ev \in {"Chunks", "Count", "StrRef"} -> st.ph = "written"
+      [] e.ev \in {"Chunks", "Count", "StrRef", "Bsp", "PortalRefs"} -> st.ph = "written"
       [] e.ev = "Parse"   -> st.ph \in {"written", "parsed", "rewritten", "converted"}
       [] e.ev = "Sec"     -> st.ph \in {"written", "parsed", "rewritten", "converted"}
       [] e.ev = "Rewrite" -> st.ph = "parsed"
